@@ -281,3 +281,930 @@ def extract():
     out.append("Definition x_order_ref (c : qclass) : bool := match c with %s end."
                % " ".join("| %s => %s" % (cq, B(refs[cq][1])) for cq, _ in CLASSES))
     return {"gen/C13Table.v": "\n".join(out) + "\n"}
+
+
+# ----------------------------------------------------------------------------------------------
+# term specs: the `terms` family plus three kinds of this plugin
+#   ["agg", NAME, arg, alias]   a real aggregate (pypika.functions.Sum ...); modelled as TFunc NAME [arg]
+#   ["nega", t, alias]          Negative(t).as_(alias)            (oracle only: TNeg has no alias slot)
+#   ["an", NAME, arg, part, alias]   analytic NAME(arg) OVER(PARTITION BY part)   (oracle only)
+# ----------------------------------------------------------------------------------------------
+RULE = ("(a) terms of the shared `terms` family with aliases at every level (p=0.45) rendered under random keyword contexts; "
+        "(b) SELECT statements of all ten query classes: 1-3 aliased select items (field, arithmetic, function, aggregate, "
+        "analytic, CASE, sub-query, comparisons, and the alias-ignoring kinds), the SAME objects re-used as/inside the join "
+        "criterion, WHERE, HAVING, function arguments and larger expressions, GROUP BY / ORDER BY elements that are the selected "
+        "object, a different object with a selected name, or an un-selected name; (c) INSERT ... VALUES rows; (d) a malformed "
+        "stream (empty criteria, CASE without WHEN, empty alias). Alias names are sentinels (zq..) so the oracle can count "
+        "them per clause. Non-trivial = some aliased object sits in a non-select position or inside another expression, or a "
+        "GROUP BY/ORDER BY element is aliased; distinct by structural hash.")
+TRUSTED = [
+    "coq/Terms.v + harness/terms_family.py (shared expression model and its spec<->pypika<->Gallina mapping, validated by C02's correspondence)",
+    "harness/props/C13.py builds the same statement on pypika and as a Gallina value; identical sub-specs become ONE Python object",
+    "the specification side of Alias.v section 4 (alias quote / AS keyword / GROUP BY-alias support per class), written from the dialects' manuals",
+    "extract(): a harness-owned Term subclass (Probe) records the keyword arguments each builder class hands to each clause position",
+    "oracle: lexes str(query) into clauses and top-level elements (quotes doubled, parentheses/brackets nested) and counts sentinel alias names",
+]
+ASSUMPTIONS = [
+    "statement cases use table-less fields or fields of the FROM / joined table (no foreign-table namespace switch), one inner join",
+    "aliases are non-empty in the theorems (pypika treats the empty alias as absent in GROUP BY/ORDER BY but renders it in the select list)",
+    "aliased Negative, analytic functions, ExistsCriterion, JSON, AtTimezone, PeriodCriterion, NestedCriterion, set operations are outside the "
+    "Coq term model: covered by the extracted table (x_alias_rows) and, for Negative/analytics, by the oracle only",
+    "sub-queries used as terms are generic Query objects (Terms.v TSub)",
+]
+
+ALIAS_IX = {"field": 3, "vals": 2, "vali": 2, "valb": 3, "valnone": 1, "valf": 2, "vald": 2, "lit": 2, "null": 1, "arith": 4,
+            "basic": 4, "cplx": 4, "in": 4, "between": 4, "bitand": 3, "isnull": 2, "notnull": 2, "not": 2, "all": 2, "case": 3,
+            "func": 3, "cast": 3, "tuple": 2, "array": 2, "sub": 1, "nega": 2, "agg": 3, "an": 4}
+FUNCLIKE = ("func", "cast", "agg", "an")
+ORACLE_ONLY = ("nega", "an")
+AGGS = {"SUM": "Sum", "AVG": "Avg", "MIN": "Min", "MAX": "Max", "COUNT": "Count"}
+
+
+def alias_of(t):
+    ix = ALIAS_IX.get(t[0])
+    return None if ix is None else t[ix]
+
+
+def with_alias(t, a):
+    ix = ALIAS_IX.get(t[0])
+    if ix is None:
+        return t
+    t2 = list(t)
+    t2[ix] = a
+    return t2
+
+
+def children(t):
+    k = t[0]
+    if k in ("neg", "nega", "bitand", "isnull", "notnull", "not", "all", "cast"):
+        return [t[1]]
+    if k in ("arith", "basic", "cplx"):
+        return [t[2], t[3]]
+    if k == "in":
+        return [t[1], t[2]]
+    if k == "between":
+        return [t[1], t[2], t[3]]
+    if k == "case":
+        return [x for cv in t[1] for x in cv] + ([t[2]] if t[2] is not None else [])
+    if k == "func":
+        return list(t[2])
+    if k == "agg":
+        return [t[2]]
+    if k == "an":
+        return [t[2]] + list(t[3])
+    if k in ("tuple", "array"):
+        return list(t[1])
+    return []
+
+
+def map_children(t, f):
+    """the same node with f applied to every child spec"""
+    k = t[0]
+    t = list(t)
+    if k in ("neg", "nega", "bitand", "isnull", "notnull", "not", "all", "cast"):
+        t[1] = f(t[1])
+    elif k in ("arith", "basic", "cplx"):
+        t[2], t[3] = f(t[2]), f(t[3])
+    elif k == "in":
+        t[1], t[2] = f(t[1]), f(t[2])
+    elif k == "between":
+        t[1], t[2], t[3] = f(t[1]), f(t[2]), f(t[3])
+    elif k == "case":
+        t[1] = [[f(c), f(v)] for c, v in t[1]]
+        t[2] = None if t[2] is None else f(t[2])
+    elif k == "func":
+        t[2] = [f(x) for x in t[2]]
+    elif k == "agg":
+        t[2] = f(t[2])
+    elif k == "an":
+        t[2] = f(t[2])
+        t[3] = [f(x) for x in t[3]]
+    elif k in ("tuple", "array"):
+        t[1] = [f(x) for x in t[1]]
+    return t
+
+
+def nodes(t, parent=None):
+    """(node, parent node) for every node of the tree, pre-order"""
+    yield t, parent
+    for c in children(t):
+        yield from nodes(c, t)
+
+
+def _ends_in_sub(t):
+    return t[0] == "sub" or (t[0] == "not" and _ends_in_sub(t[1]))
+
+
+def modelled(t):
+    """inside the Coq term model?  Not: aliased Negative, analytic functions, and a sub-query as a direct arithmetic operand
+    (pypika parenthesises it by accident -- getattr(subquery, "operator") is a Field -- which the shared Terms.v does not model)"""
+    for n, _ in nodes(t):
+        if n[0] in ORACLE_ONLY:
+            return False
+        if n[0] == "arith" and (_ends_in_sub(n[2]) or _ends_in_sub(n[3])):
+            return False
+    return True
+
+
+def bld(t, memo):
+    """spec -> pypika object; structurally equal specs inside one case are ONE object (memo)"""
+    import pypika.terms as T
+    import pypika.enums as E
+    key = json.dumps(t)
+    if key in memo:
+        return memo[key]
+    k = t[0]
+    b = lambda x: bld(x, memo)   # noqa: E731
+    if k == "neg":
+        o = T.Negative(b(t[1]))
+    elif k == "nega":
+        o = T.Negative(b(t[1])).as_(t[2])
+    elif k == "arith":
+        o = T.ArithmeticExpression(getattr(E.Arithmetic, t[1]), b(t[2]), b(t[3]), alias=t[4])
+    elif k == "basic":
+        cls = E.Equality if t[1] in tf.EQUALITY else E.Matching
+        o = T.BasicCriterion(getattr(cls, t[1]), b(t[2]), b(t[3]), alias=t[4])
+    elif k == "cplx":
+        o = T.ComplexCriterion(getattr(E.Boolean, t[1] + "_"), b(t[2]), b(t[3]), alias=t[4])
+    elif k == "in":
+        o = T.ContainsCriterion(b(t[1]), b(t[2]), alias=t[4])
+        o = o.negate() if t[3] else o
+    elif k == "between":
+        o = T.BetweenCriterion(b(t[1]), b(t[2]), b(t[3]), alias=t[4])
+    elif k == "bitand":
+        o = T.BitwiseAndCriterion(b(t[1]), T.Term.wrap_constant(int(t[2])), alias=t[3])
+    elif k == "isnull":
+        o = T.NullCriterion(b(t[1]), alias=t[2])
+    elif k == "notnull":
+        o = T.NotNullCriterion(b(t[1]), alias=t[2])
+    elif k == "not":
+        o = T.Not(b(t[1]), alias=t[2])
+    elif k == "all":
+        o = T.All(b(t[1]), alias=t[2])
+    elif k == "case":
+        o = T.Case(alias=t[3])
+        for cr, v in t[1]:
+            o = o.when(b(cr), b(v))
+        if t[2] is not None:
+            o = o.else_(b(t[2]))
+    elif k == "func":
+        o = T.Function(t[1], *[b(a) for a in t[2]], alias=t[3])
+    elif k == "cast":
+        from pypika.functions import Cast
+        o = Cast(b(t[1]), t[2], alias=t[3])
+    elif k == "agg":
+        import pypika.functions as F
+        o = getattr(F, AGGS[t[1]])(b(t[2]), alias=t[3])
+    elif k == "an":
+        import pypika.analytics as A
+        o = getattr(A, AGGS[t[1]])(b(t[2])).over(*[b(x) for x in t[3]])
+        o = _al(o, t[4])
+    elif k == "tuple":
+        o = _al(T.Tuple(*[b(a) for a in t[1]]), t[2])
+    elif k == "array":
+        o = _al(T.Array(*[b(a) for a in t[1]]), t[2])
+    else:
+        o = tf.build(t)          # leaves
+    memo[key] = o
+    return o
+
+
+def coq_term(t):
+    k = t[0]
+    if k == "agg":
+        return "(TFunc %s (TCons %s TNil) None %s)" % (S(t[1]), coq_term(t[2]), OS(t[3]))
+    if not modelled(t):
+        raise ValueError("not modelled")
+    if not children(t):
+        return tf.coq(t)
+    # composite kinds of the shared family: re-use tf.coq on a tree whose agg nodes are already rewritten
+    return tf.coq(_rewrite_aggs(t))
+
+
+def _rewrite_aggs(t):
+    if t[0] == "agg":
+        return ["func", t[1], [_rewrite_aggs(t[2])], t[3]]
+    return map_children(t, _rewrite_aggs)
+
+
+def owner_name(obj):
+    return [k for k in type(obj).__mro__ if "get_sql" in k.__dict__][0].__name__
+
+
+# ----------------------------------------------------------------------------------------------
+# implementation side
+# ----------------------------------------------------------------------------------------------
+def build_query(case, memo):
+    from pypika import Table, Order
+    Q = qclass(case["cls"])
+    t, u = Table("t"), Table("u")
+    if case["kind"] == "ins":
+        return Q.into(t).insert(*[bld(x, memo) for x in case["row"]])
+    q = Q.from_(t)
+    if case.get("on") is not None:
+        q = q.join(u).on(bld(case["on"], memo))
+    q = q.select(*[bld(x, memo) for x in case["sel"]])
+    if case.get("where") is not None:
+        q = q.where(bld(case["where"], memo))
+    if case.get("group"):
+        q = q.groupby(*[bld(x, memo) for x in case["group"]])
+    if case.get("having") is not None:
+        q = q.having(bld(case["having"], memo))
+    for x, d in case.get("order") or []:
+        q = q.orderby(bld(x, memo), order=None if d is None else getattr(Order, d))
+    return q
+
+
+def run_impl(case):
+    try:
+        if case["kind"] == "term":
+            text = bld(case["t"], {}).get_sql(**tf.ctx_kwargs(case["c"]))
+        else:
+            text = str(build_query(case, {}))
+    except Exception as e:  # noqa
+        text = "!" + type(e).__name__
+    return {"text": text}
+
+
+def to_coq(case, outcome):
+    text = outcome.get("text")
+    if text is None:
+        return None
+    try:
+        if case["kind"] == "term":
+            return "(CTerm %s %s %s)" % (tf.ctx_coq(case["c"]), coq_term(case["t"]), S(text))
+        if case["kind"] == "ins":
+            return "(CIns %s %s %s)" % (CLS_COQ[case["cls"]], L([coq_term(x) for x in case["row"]]), S(text))
+        o = lambda x: "None" if x is None else "(Some %s)" % coq_term(x)   # noqa: E731
+        order = L(["(%s, %s)" % (coq_term(x), "None" if d is None else "(Some %s)" % ("DAsc" if d == "asc" else "DDesc"))
+                   for x, d in case.get("order") or []])
+        return ("(CStmt {| s_cls := %s; s_sel := %s; s_on := %s; s_where := %s; s_group := %s; s_having := %s; s_order := %s |} %s)"
+                % (CLS_COQ[case["cls"]], L([coq_term(x) for x in case["sel"]]), o(case.get("on")), o(case.get("where")),
+                   L([coq_term(x) for x in case.get("group") or []]), o(case.get("having")), order, S(text)))
+    except ValueError:
+        return None          # contains a kind the Coq term model does not have
+
+
+# ----------------------------------------------------------------------------------------------
+# oracle: occurrences and lexical form of the sentinel alias names in the rendered text
+# ----------------------------------------------------------------------------------------------
+SENT_RE = re.compile(r"zq[0-9A-Za-z]+")
+# specification table of the oracle (the property's "dialect's alias convention" / "the dialect allows it")
+SPEC_QUOTE = {"MySQLQuery": "`", "OracleQuery": ""}
+SPEC_AS = {"ClickHouseQuery": True}
+NO_GROUP_ALIAS = ("OracleQuery", "MSSQLQuery")
+FROM_T = re.compile(r'(["`]?)t\1(?= |$)')
+
+
+def scan(text):
+    """yield (index, char, depth, in_quote) ; quotes ' \" ` with doubling, depth over () and []"""
+    i, n, depth = 0, len(text), 0
+    while i < n:
+        ch = text[i]
+        if ch in "'\"`":
+            j = i + 1
+            while j < n:
+                if text[j] == ch:
+                    if j + 1 < n and text[j + 1] == ch:
+                        j += 2
+                        continue
+                    break
+                j += 1
+            for k_ in range(i, min(j + 1, n)):
+                yield k_, text[k_], depth, True
+            i = j + 1
+            continue
+        if ch in "([":
+            depth += 1
+        yield i, ch, depth, False
+        if ch in ")]":
+            depth -= 1
+        i += 1
+
+
+def top_positions(text):
+    """indices of characters at depth 0 outside quotes"""
+    return [i for i, ch, d, qd in scan(text) if d == 0 and not qd]
+
+
+def find_top(text, kw, start=0):
+    tops = set(top_positions(text))
+    i = text.find(kw, start)
+    while i != -1:
+        if all((i + k_) in tops for k_ in range(len(kw))):
+            return i
+        i = text.find(kw, i + 1)
+    return -1
+
+
+def split_top(text, sep=","):
+    tops = set(top_positions(text))
+    out, last = [], 0
+    for i, ch in enumerate(text):
+        if ch == sep and i in tops:
+            out.append(text[last:i])
+            last = i + 1
+    out.append(text[last:])
+    return out
+
+
+def split_statement(case, text):
+    """clause name -> segment text, following the clauses the case has; None when the text has another shape"""
+    if case["kind"] == "ins":
+        i = find_top(text, " VALUES ")
+        if i == -1 or not text[i + 8:].startswith("(") or not text.endswith(")"):
+            return None
+        return {"values": text[i + 9:-1]}
+    plan = [("select", "SELECT "), ("from", " FROM ")]
+    if case.get("on") is not None:
+        plan += [("join", " JOIN "), ("on", " ON ")]
+    if case.get("where") is not None:
+        plan.append(("where", " WHERE "))
+    if case.get("group"):
+        plan.append(("groupby", " GROUP BY "))
+    if case.get("having") is not None:
+        plan.append(("having", " HAVING "))
+    if case.get("order"):
+        plan.append(("orderby", " ORDER BY "))
+    pos, marks = 0, []
+    for name, kw in plan:
+        if name == "select":
+            i = 0 if text.startswith(kw) else -1
+        elif name == "from":
+            # the statement's own FROM names table t (sub-queries, which some positions leave unparenthesised, read from u)
+            i, start = -1, pos
+            while True:
+                i = find_top(text, kw, start)
+                if i == -1 or FROM_T.match(text, i + len(kw)):
+                    break
+                start = i + 1
+        else:
+            i = find_top(text, kw, pos)
+        if i == -1:
+            return None
+        marks.append((name, i, i + len(kw)))
+        pos = i + len(kw)
+    segs = {}
+    for k_, (name, i, j) in enumerate(marks):
+        end = marks[k_ + 1][1] if k_ + 1 < len(marks) else len(text)
+        segs[name] = text[j:end]
+    return segs
+
+
+def occurrences(seg, name):
+    """lexical forms of the occurrences of a sentinel name in a segment: list of (start, end, quote, has_as)"""
+    out = []
+    for m in SENT_RE.finditer(seg):
+        if m.group(0) != name:
+            continue
+        s, e = m.start(), m.end()
+        qc = ""
+        if s > 0 and e < len(seg) and seg[s - 1] == seg[e] and seg[s - 1] in "\"`":
+            qc = seg[s - 1]
+            s, e = s - 1, e + 1
+        has_as = seg[:s].endswith(" AS ")
+        out.append((s, e, qc, has_as))
+    return out
+
+
+def ignores_with_alias(obj, name):
+    """does the object render its own alias when asked not to (with_alias=False)?  observed on the implementation"""
+    try:
+        return name in SENT_RE.findall(obj.get_sql(with_alias=False, quote_char='"', secondary_quote_char="'"))
+    except Exception:  # noqa
+        return False
+
+
+def judge_element(spec, seg, role, conv, memo, selected_names, allowed_ref, select_defs):
+    """role: 'select' | 'non-select' (where/having/on) | 'values' | 'groupby' | 'orderby'
+    conv = (quote, as_keyword) of the class / context.  Returns violations."""
+    out = []
+    q, askw = conv
+    top_alias = alias_of(spec)
+    sentinel = top_alias if (top_alias and SENT_RE.fullmatch(top_alias)) else None
+
+    def viol(ctor, where, what, msg):
+        out.append({"signature": ["C13", ctor, where, what], "what": msg + " in %r" % seg})
+
+    top_obj = bld(spec, memo)
+    top_cls = owner_name(top_obj)
+    expect_own = 0
+    if role == "select" and sentinel:
+        expect_own = 1
+        suffix = (" AS " if askw else " ") + q + sentinel + q
+        occ = occurrences(seg, sentinel)
+        tail = [o for o in occ if o[1] == len(seg)]
+        if not occ:
+            viol(top_cls, "select", "alias-missing", "selected object aliased %s renders without its alias" % sentinel)
+        elif not tail:
+            viol(top_cls, "select", "alias-missing", "alias %s is not at the end of its select item" % sentinel)
+        elif not seg.endswith(suffix) or (not askw and tail[0][3]):
+            viol(top_cls, "select", "alias-unquoted",
+                 "alias %s is not written by the class's convention %r" % (sentinel, suffix))
+        if len(occ) > 1 and not any(alias_of(n) == sentinel for n, p in nodes(spec) if p is not None):
+            viol(top_cls, "select", "alias-twice", "alias %s rendered %d times" % (sentinel, len(occ)))
+    elif role in ("groupby", "orderby") and sentinel:
+        ref = q + sentinel + q
+        occ = occurrences(seg, sentinel)
+        is_ref = len(occ) == 1 and occ[0][0] == 0 and occ[0][1] == len(seg)
+        if sentinel in selected_names and allowed_ref:
+            expect_own = 1
+            if seg == ref:
+                if not select_defs.get(sentinel):
+                    viol(select_defs.get("#cls:" + sentinel, top_cls), role, "alias-ref-undefined",
+                         "%s references %s, which the rendered select list does not define" % (role, ref))
+            elif is_ref:
+                viol(top_cls, role, "alias-unquoted", "reference to %s is not written as %r" % (sentinel, ref))
+            else:
+                viol(top_cls, role, "alias-missing", "element aliased %s (selected, allowed) is not a reference" % sentinel)
+                expect_own = 0
+        elif is_ref:
+            expect_own = 1
+            viol(top_cls, role, "alias-ref-undefined",
+                 "%s references %s although %s" % (role, sentinel, "the class does not allow it" if sentinel in selected_names
+                                                   else "no select item has that name"))
+    # every other occurrence of an alias name: an object rendered its alias where none belongs
+    seen = {}
+    for n, parent in nodes(spec):
+        a = alias_of(n)
+        if not a or not SENT_RE.fullmatch(a):
+            continue
+        is_top = parent is None
+        key = (a, is_top)
+        if key in seen:
+            continue
+        seen[key] = True
+        cnt = len(occurrences(seg, a))
+        if is_top:
+            cnt -= expect_own
+            if any(alias_of(m) == a for m, p in nodes(spec) if p is not None):
+                continue            # the same name also sits on an inner object: attributed there
+        if cnt <= 0:
+            continue
+        obj = bld(n, memo)
+        if is_top:
+            if role == "values" and not ignores_with_alias(obj, a):
+                viol(owner_name(obj), "values", "alias-in-non-select", "VALUES element renders its alias %s" % a)
+            else:
+                viol(owner_name(obj), "non-select", "alias-in-non-select", "%s element renders its alias %s" % (role, a))
+        elif ignores_with_alias(obj, a):
+            viol(owner_name(obj), "non-select", "alias-in-non-select",
+                 "object aliased %s renders its alias %s" % (a, "as a function argument" if parent[0] in FUNCLIKE
+                                                           else "inside a larger expression"))
+        else:
+            viol(owner_name(bld(parent, memo)), "operand", "alias-in-non-select",
+                 "operand aliased %s renders its alias inside its parent (with_alias forwarded)" % a)
+    return out
+
+
+def oracle(case, outcome):
+    text = outcome.get("text") or ""
+    if text.startswith("!") or text == "":
+        return []
+    memo = {}
+    if case["kind"] == "term":
+        c = case["c"]
+        conv = ((c.get("aq") or c.get("q") or ""), bool(c.get("askw")))
+        return judge_element(case["t"], text, "select" if c.get("wa") else "non-select", conv, memo, set(), False, {})
+    cls = case["cls"]
+    conv = (SPEC_QUOTE.get(cls, '"'), SPEC_AS.get(cls, False))
+    segs = split_statement(case, text)
+    if segs is None:
+        return [{"signature": ["C13", cls, "statement", "unreadable"], "what": "cannot find the clauses of %r" % text}]
+    out = []
+    if case["kind"] == "ins":
+        parts = split_top(segs["values"])
+        if len(parts) != len(case["row"]):
+            return []
+        for spec, seg in zip(case["row"], parts):
+            out += judge_element(spec, seg, "values", conv, memo, set(), False, {})
+        return out
+    sel_parts = split_top(segs["select"])
+    if len(sel_parts) != len(case["sel"]):
+        return []
+    selected_names = {alias_of(x) for x in case["sel"] if alias_of(x)}
+    # which names does the RENDERED select list define (in any lexical form)?
+    select_defs = {}
+    for spec, seg in zip(case["sel"], sel_parts):
+        a = alias_of(spec)
+        if a and SENT_RE.fullmatch(a):
+            if any(o[1] == len(seg) for o in occurrences(seg, a)):
+                select_defs[a] = True
+            select_defs.setdefault("#cls:" + a, owner_name(bld(spec, memo)))
+    for spec, seg in zip(case["sel"], sel_parts):
+        out += judge_element(spec, seg, "select", conv, memo, selected_names, False, select_defs)
+    for clause in ("on", "where", "having"):
+        if case.get(clause) is not None:
+            out += judge_element(case[clause], segs[clause], "non-select", conv, memo, selected_names, False, select_defs)
+    if case.get("group"):
+        parts = split_top(segs["groupby"])
+        if len(parts) == len(case["group"]):
+            for spec, seg in zip(case["group"], parts):
+                out += judge_element(spec, seg, "groupby", conv, memo, selected_names, cls not in NO_GROUP_ALIAS, select_defs)
+    if case.get("order"):
+        parts = split_top(segs["orderby"])
+        if len(parts) == len(case["order"]):
+            for (spec, d), seg in zip(case["order"], parts):
+                if d is not None and seg.endswith(" " + d.upper()):
+                    seg = seg[:-(len(d) + 1)]
+                out += judge_element(spec, seg, "orderby", conv, memo, selected_names, True, select_defs)
+    # one report per signature and case
+    uniq, res = set(), []
+    for v in out:
+        k_ = tuple(v["signature"])
+        if k_ not in uniq:
+            uniq.add(k_)
+            res.append(v)
+    return res
+
+
+# ----------------------------------------------------------------------------------------------
+# generation
+# ----------------------------------------------------------------------------------------------
+T_T, T_U = ["t", [], None], ["u", [], None]
+TOP_NAMES = ["zqA", "zqB", "zqC"]
+CONSUMING = ["field", "arith", "func", "agg", "case", "sub", "basic", "cast"]
+ALWAYS = ["isnull", "notnull", "between", "in", "vali", "vals", "lit", "null", "tuple", "array", "not", "bitand", "all", "valb"]
+
+
+def F(name, alias=None, table=None):
+    return ["field", name, table, alias]
+
+
+def I(n, alias=None):
+    return ["vali", n, alias]
+
+
+class G:
+    """aliased objects over the shared typed generator; aliases renamed to sentinels, tables confined to the statement's"""
+
+    def __init__(self, rng, tables, p_inner=0.25, hostile=0.15):
+        self.r = rng
+        self.tables = tables
+        self.g = tf.Gen(rng, p_alias=p_inner, p_table=0.0, hostile=hostile, with_sub=True)
+        self.n = 0
+
+    def fresh(self):
+        self.n += 1
+        return "zq%d" % self.n
+
+    def fix(self, t):
+        """rename every alias below to a fresh sentinel, confine field tables"""
+        t = map_children(t, self.fix)
+        if t[0] == "field":
+            t = list(t)
+            t[2] = self.r.choice(self.tables)
+        if alias_of(t) is not None:
+            t = with_alias(t, self.fresh())
+        return t
+
+    def num(self, d):
+        return self.fix(self.g.num(d))
+
+    def boolean(self, d):
+        return self.fix(self.g.boolean(d))
+
+    def top(self, kind, alias, d=2):
+        r = self.r
+        if kind == "field":
+            t = F(r.choice(tf.NAMES), None, r.choice(self.tables))
+        elif kind == "arith":
+            t = ["arith", r.choice(["add", "sub", "mul", "div"]), self.num(d - 1), self.num(d - 1), None]
+        elif kind == "func":
+            t = ["func", r.choice(["ABS", "COALESCE", "F"]), [self.num(d - 1) for _ in range(r.choice([0, 1, 2]))], None]
+        elif kind == "agg":
+            t = ["agg", r.choice(list(AGGS)), self.num(d - 1), None]
+        elif kind == "an":
+            t = ["an", r.choice(list(AGGS)), self.num(d - 1), [F(r.choice(tf.NAMES)) for _ in range(r.choice([0, 1, 2]))], None]
+        elif kind == "case":
+            t = ["case", [[self.boolean(d - 1), self.num(d - 1)] for _ in range(r.choice([1, 2]))],
+                 self.num(d - 1) if r.random() < 0.5 else None, None]
+        elif kind == "sub":
+            t = ["sub", None]
+        elif kind == "basic":
+            t = ["basic", r.choice(tf.EQUALITY + ["like"]), self.num(d - 1), self.num(d - 1), None]
+        elif kind == "cast":
+            t = ["cast", self.num(d - 1), r.choice(["SIGNED", "varchar(10)"]), None]
+        elif kind == "cplx":
+            t = ["cplx", r.choice(["and", "or", "xor"]), self.boolean(d - 1), self.boolean(d - 1), None]
+        elif kind == "nega":
+            t = ["nega", self.num(d - 1), None]
+        elif kind in ("isnull", "notnull", "all"):
+            t = [kind, self.num(d - 1), None]
+        elif kind == "not":
+            t = ["not", self.boolean(d - 1), None]
+        elif kind == "between":
+            t = ["between", self.num(d - 1), self.num(d - 1), self.num(d - 1), None]
+        elif kind == "in":
+            t = ["in", self.num(d - 1), ["tuple", [self.num(0) for _ in range(r.choice([1, 2, 3]))], None], r.random() < 0.3, None]
+        elif kind == "bitand":
+            t = ["bitand", self.num(d - 1), r.choice([1, 2, 255]), None]
+        elif kind == "vali":
+            t = I(r.choice([0, 1, 7, -5, 10 ** 12]))
+        elif kind == "vals":
+            t = ["vals", self.g.string(), None]
+        elif kind == "valb":
+            t = ["valb", r.random() < 0.5, r.random() < 0.3, None]
+        elif kind == "lit":
+            t = ["lit", r.choice(["CURRENT_DATE", "x.y"]), None]
+        elif kind == "null":
+            t = ["null", None]
+        elif kind in ("tuple", "array"):
+            t = [kind, [self.num(d - 1) for _ in range(r.choice([1, 2]))], None]
+        else:
+            raise ValueError(kind)
+        return with_alias(t, alias)
+
+    def kind(self):
+        x = self.r.random()
+        if x < 0.62:
+            return self.r.choice(CONSUMING)
+        if x < 0.9:
+            return self.r.choice(ALWAYS)
+        if x < 0.95:
+            return "cplx"
+        return self.r.choice(["nega", "an"])
+
+    def wrap(self, x):
+        """a larger expression (criterion-like) containing the object x"""
+        r = self.r
+        k = r.randrange(12)
+        if k == 0:
+            return x
+        if k == 1:
+            return ["basic", r.choice(tf.EQUALITY), x, I(r.choice([0, 1, 5])), None]
+        if k == 2:
+            return ["basic", "eq", ["arith", r.choice(["add", "mul"]), x, I(1), None], I(2), None]
+        if k == 3:
+            return [r.choice(["isnull", "notnull"]), x, None]
+        if k == 4:
+            return ["basic", "gt", ["func", r.choice(["ABS", "F"]), [x], None], I(0), None]
+        if k == 5:
+            return ["between", x, I(1), I(9), None]
+        if k == 6:
+            return ["in", x, ["tuple", [I(1), I(2)], None], r.random() < 0.3, None]
+        if k == 7:
+            return ["cplx", r.choice(["and", "or"]), ["basic", "gt", x, I(0), None], ["basic", "lt", F("c"), I(9), None], None]
+        if k == 8:
+            return ["not", ["basic", "eq", x, I(3), None], None]
+        if k == 9:
+            return ["basic", "lt", ["neg", x], I(0), None]
+        if k == 10:
+            return ["basic", "eq", ["case", [[["basic", "gt", x, I(0), None], I(1)]], I(0), None], I(1), None]
+        return ["basic", "gte", ["agg", "MAX", x, None], I(1), None]
+
+
+def gen_stmt(rng, tier):
+    cls = rng.choice(CLASSES)[1]
+    joined = rng.random() < 0.35
+    g = G(rng, [None, None, T_T] + ([T_U] if joined else []))
+    sel = []
+    for _ in range(rng.choice([1, 2, 2, 3])):
+        sel.append(g.top(g.kind(), rng.choice(TOP_NAMES) if rng.random() < 0.88 else None, rng.choice([1, 2, 2, 3])))
+
+    def element():
+        x = rng.random()
+        if x < 0.5:
+            return rng.choice(sel)                                        # the selected object itself
+        if x < 0.7:
+            return g.top(g.kind(), rng.choice(TOP_NAMES), 1)              # another object, possibly a selected name
+        if x < 0.88:
+            return g.top(g.kind(), "zqU%d" % rng.randrange(3), 1)         # a name that is not selected
+        return g.top(rng.choice(CONSUMING), None, 1)                      # no alias
+
+    case = {"kind": "stmt", "cls": cls, "sel": sel, "on": None, "where": None, "group": [], "having": None, "order": []}
+    if joined:
+        case["on"] = (g.wrap(rng.choice(sel)) if rng.random() < 0.5
+                      else ["basic", "eq", F("a", None, T_T), F("b", None, T_U), None])
+    if rng.random() < 0.6:
+        case["where"] = g.wrap(rng.choice(sel)) if rng.random() < 0.75 else g.boolean(2)
+    if rng.random() < 0.5:
+        case["group"] = [element() for _ in range(rng.choice([1, 1, 2]))]
+    if rng.random() < 0.3:
+        case["having"] = g.wrap(rng.choice(sel)) if rng.random() < 0.75 else g.boolean(1)
+    if rng.random() < 0.5:
+        case["order"] = [[element(), rng.choice([None, "asc", "desc"])] for _ in range(rng.choice([1, 1, 2, 3]))]
+    return case
+
+
+def gen_term(rng, tier):
+    g = G(rng, [None, None, T_T, ["t", [], "ta"], ["v", ["d", "s"], None]], p_inner=0.45, hostile=0.3)
+    d = rng.choice([1, 2, 2, 3] if tier == "quick" else [2, 3, 4])
+    x = rng.random()
+    if x < 0.6:
+        t = g.top(g.kind(), "zqA" if rng.random() < 0.85 else None, d)
+        while not modelled(t) and rng.random() < 0.7:
+            t = g.top(rng.choice(CONSUMING), "zqA", d)
+    elif x < 0.8:
+        t = g.wrap(g.top(g.kind(), "zqA", d))
+    else:
+        t = g.fix(g.g.any(d))
+    c = tf.gen_ctx(rng)
+    if rng.random() < 0.5:
+        c["wa"] = True
+    return {"kind": "term", "t": t, "c": c}
+
+
+def gen_ins(rng, tier):
+    g = G(rng, [None, T_T])
+    row = []
+    for _ in range(rng.choice([1, 2, 3])):
+        row.append(g.top(g.kind(), rng.choice(TOP_NAMES) if rng.random() < 0.6 else None, 1) if rng.random() < 0.7
+                   else I(rng.randrange(9)))
+    return {"kind": "ins", "cls": rng.choice(CLASSES)[1], "row": row}
+
+
+def gen_malformed(rng, tier):
+    g = G(rng, [None])
+    x = rng.random()
+    base = {"kind": "stmt", "cls": rng.choice(CLASSES)[1], "sel": [F("a", "zqA")], "on": None, "where": None, "group": [],
+            "having": None, "order": []}
+    if x < 0.2:
+        base["sel"] = [["case", [], None, "zqA"]]
+    elif x < 0.4:
+        base["where"] = ["cplx", "and", ["empty"], ["basic", "gt", F("a", "zqA"), I(1), None], None]
+    elif x < 0.6:                      # the empty alias: rendered in the select list, ignored by GROUP BY / ORDER BY
+        base["sel"] = [F("a", ""), g.top("arith", "", 1)]
+        base["group"] = [F("a", "")]
+        base["order"] = [[F("a", ""), "desc"]]
+    elif x < 0.8:
+        base["sel"] = []
+        base["where"] = ["basic", "gt", F("a", "zqA"), I(1), None]
+    else:
+        base["having"] = ["not", ["empty"], "zqB"]
+    return base
+
+
+def gen_cases(rng, tier):
+    n = 460 if tier == "quick" else 6000
+    out = []
+    for _ in range(n):
+        x = rng.random()
+        if x < 0.33:
+            out.append(gen_term(rng, tier))
+        elif x < 0.87:
+            out.append(gen_stmt(rng, tier))
+        elif x < 0.95:
+            out.append(gen_ins(rng, tier))
+        else:
+            out.append(gen_malformed(rng, tier))
+    return out
+
+
+# ----------------------------------------------------------------------------------------------
+# corpus: witnesses of the known findings (systematic) + the texts proved in props/C13.v
+# ----------------------------------------------------------------------------------------------
+def stmt(cls="Query", sel=None, on=None, where=None, group=None, having=None, order=None):
+    return {"kind": "stmt", "cls": cls, "sel": sel if sel is not None else [F("a")], "on": on, "where": where,
+            "group": group or [], "having": having, "order": order or []}
+
+
+def simple_top(kind, alias):
+    """a small fixed instance of every aliasable kind"""
+    a, b = F("a"), F("b")
+    return {
+        "field": F("a", alias), "arith": ["arith", "add", a, I(1), alias], "func": ["func", "F", [a], alias],
+        "agg": ["agg", "SUM", b, alias], "an": ["an", "SUM", a, [b], alias], "case": ["case", [[["basic", "gt", a, I(0), None], b]], None, alias],
+        "sub": ["sub", alias], "basic": ["basic", "gt", a, I(1), alias], "cast": ["cast", a, "SIGNED", alias],
+        "cplx": ["cplx", "and", ["basic", "eq", a, I(1), None], ["basic", "eq", b, I(2), None], alias],
+        "nega": ["nega", a, alias], "isnull": ["isnull", a, alias], "notnull": ["notnull", a, alias],
+        "between": ["between", a, I(1), I(2), alias], "in": ["in", a, ["tuple", [I(1), I(2)], None], False, alias],
+        "vali": I(1, alias), "vals": ["vals", "x", alias], "valb": ["valb", True, False, alias], "lit": ["lit", "CURRENT_DATE", alias],
+        "null": ["null", alias], "tuple": ["tuple", [a, b], alias], "array": ["array", [a, b], alias],
+        "not": ["not", ["basic", "eq", a, I(1), None], alias], "bitand": ["bitand", a, 2, alias], "all": ["all", a, alias],
+    }[kind]
+
+
+ALL_KINDS = CONSUMING + ALWAYS + ["cplx", "nega", "an"]
+FORWARDERS = {
+    "neg": lambda x: ["neg", x], "cplx": lambda x: ["cplx", "and", x, ["basic", "eq", F("b"), I(2), None], None],
+    "in": lambda x: ["in", x, ["tuple", [I(1)], None], False, None], "between": lambda x: ["between", x, I(1), I(2), None],
+    "bitand": lambda x: ["bitand", x, 2, None], "not": lambda x: ["not", x, None], "all": lambda x: ["all", x, None],
+    "tuple": lambda x: ["tuple", [x, F("b")], None], "array": lambda x: ["array", [x], None],
+}
+
+
+def grid_cases(classes=("Query",)):
+    """every aliasable kind at every position (select, where, having, on, group by, order by, function argument, operand of
+    every composite), for the given classes"""
+    out = []
+    for cls in classes:
+        for k in ALL_KINDS:
+            x = simple_top(k, "zqA")
+            out.append(stmt(cls, sel=[x]))
+            out.append(stmt(cls, sel=[x], where=x, having=x, group=[x], order=[[x, "desc"]]))
+            out.append(stmt(cls, sel=[F("c", "zqB")], on=x, where=["basic", "gt", x, I(0), None]))
+            out.append(stmt(cls, sel=[F("c", "zqB")], group=[x], order=[[x, None]]))                 # name not selected
+            out.append(stmt(cls, sel=[F("c", "zqA")], group=[x], order=[[x, "asc"]]))                # another object, same name
+            out.append(stmt(cls, sel=[["func", "G", [x], "zqB"]], where=["basic", "eq", ["func", "G", [x], None], I(1), None]))
+            out.append({"kind": "ins", "cls": cls, "row": [x]})
+            for w in FORWARDERS.values():
+                out.append(stmt(cls, sel=[w(x)], where=w(x)))
+            out.append(stmt(cls, sel=[["arith", "add", x, I(1), "zqB"], ["basic", "eq", x, I(1), "zqC"], ["isnull", x, None],
+                                      ["case", [[["basic", "gt", x, I(0), None], x]], x, None]]))
+    return out
+
+
+def corpus():
+    sc = dict(tf.STR_CTX)
+    w_null = ["isnull", F("a"), "n"]
+    w_gt = ["basic", "gt", F("a"), I(1), "gt"]
+    w_cplx = simple_top("cplx", "x")
+    w_fwd = ["cplx", "and", ["basic", "gt", F("a"), I(1), "x"], ["basic", "eq", F("b"), I(2), None], None]
+    w_now = ["func", "NOW", [], "n"]
+    w_sub = ["sub", "sq"]
+    proved = [      # the texts of C13_refutation_witnesses / C13_example, with the names used there
+        stmt(where=w_null), stmt(sel=[w_gt]), stmt("PostgreSQLQuery", sel=[w_gt]), stmt(sel=[w_cplx]), stmt(sel=[w_fwd]),
+        stmt(sel=[["between", F("a", "n"), I(1), I(2), None]]), stmt(sel=[["neg", F("a", "n")]]),
+        {"kind": "ins", "cls": "Query", "row": [w_now]}, stmt("SnowflakeQuery", sel=[w_sub, F("a", "m")]),
+        stmt("SnowflakeQuery", sel=[w_sub], order=[[w_sub, None]]), stmt(sel=[w_cplx], order=[[F("z", "x"), None]]),
+        stmt(group=[w_null]), stmt(sel=[["func", "F", [I(1, "n")], None]]),
+    ]
+    ex_m = ["arith", "add", F("a", "inner"), I(1), "m"]
+    ex_s = ["func", "SUM", [F("b")], "s"]
+    for cls in ("Query", "OracleQuery", "ClickHouseQuery", "SnowflakeQuery", "MySQLQuery"):
+        proved.append(stmt(cls, sel=[ex_m, ex_s], on=["basic", "eq", F("a"), F("b"), None],
+                           where=["basic", "gt", ex_m, I(0), None], group=[ex_m], having=["basic", "gt", ex_s, I(1), None],
+                           order=[[ex_m, "desc"], [ex_s, None], [F("z", "zz"), None]]))
+    out = proved + grid_cases(("Query",))
+    # alias quoting of every consuming kind in the classes whose convention differs (sentinel names)
+    for cls in ("SnowflakeQuery", "PostgreSQLQuery", "OracleQuery", "MSSQLQuery", "ClickHouseQuery", "MySQLQuery"):
+        for k in CONSUMING + ["an", "isnull", "cplx", "nega"]:
+            x = simple_top(k, "zqA")
+            out.append(stmt(cls, sel=[x], group=[x], order=[[x, "desc"]]))
+    # term level: explicit alias_quote_char / as_keyword
+    for k in CONSUMING + ["isnull", "vali"]:
+        out.append({"kind": "term", "t": simple_top(k, "zqA"), "c": dict(sc, aq="`", askw=True, wa=True)})
+        out.append({"kind": "term", "t": simple_top(k, "zqA"), "c": dict(sc, wa=True)})
+        out.append({"kind": "term", "t": simple_top(k, "zqA"), "c": dict(sc)})
+    return out
+
+
+# ----------------------------------------------------------------------------------------------
+# evidence helpers / search
+# ----------------------------------------------------------------------------------------------
+def _elements(case):
+    """(clause, spec) of every top-level element"""
+    if case["kind"] == "term":
+        return [("term", case["t"])]
+    if case["kind"] == "ins":
+        return [("values", x) for x in case["row"]]
+    out = [("select", x) for x in case["sel"]]
+    for c in ("on", "where", "having"):
+        if case.get(c) is not None:
+            out.append((c, case[c]))
+    out += [("groupby", x) for x in case.get("group") or []]
+    out += [("orderby", x) for x, _ in case.get("order") or []]
+    return out
+
+
+def nontrivial_key(case):
+    hit = False
+    for clause, spec in _elements(case):
+        for n, parent in nodes(spec):
+            if alias_of(n) and (parent is not None or clause not in ("select", "term")):
+                hit = True
+    return json.dumps(case, sort_keys=True) if hit else None
+
+
+def histogram(cases):
+    h = {}
+
+    def inc(k, n=1):
+        h[k] = h.get(k, 0) + n
+    for c in cases:
+        inc("kind=" + c["kind"])
+        if "cls" in c:
+            inc("class=" + c["cls"])
+        for clause, spec in _elements(c):
+            inc("elements@" + clause)
+            for n, parent in nodes(spec):
+                if alias_of(n):
+                    inc("aliased:" + n[0] + ("@" + clause if parent is None else "@nested"))
+        if c["kind"] == "stmt":
+            names = {alias_of(x) for x in c["sel"]}
+            keys = {json.dumps(x) for x in c["sel"]}
+            for x in list(c.get("group") or []) + [y for y, _ in c.get("order") or []]:
+                if json.dumps(x) in keys:
+                    inc("ref:same-object")
+                elif alias_of(x) and alias_of(x) in names:
+                    inc("ref:same-name-other-object")
+                elif alias_of(x):
+                    inc("ref:name-not-selected")
+            shared = sum(1 for cl in ("on", "where", "having") if c.get(cl) is not None
+                         and any(json.dumps(n) in keys for n, _ in nodes(c[cl])))
+            inc("filters-sharing-a-selected-object", shared)
+    return h
+
+
+def targeted_search(rng, broken, mism_cases):
+    """every aliasable kind x every position x all ten classes, then a denser random batch"""
+    out = grid_cases([py for _, py in CLASSES])
+    for c in mism_cases:
+        for clause, spec in _elements(c):
+            for n, _ in nodes(spec):
+                out.append({"kind": "term", "t": n, "c": dict(tf.STR_CTX)})
+                out.append({"kind": "term", "t": n, "c": dict(tf.STR_CTX, wa=True)})
+    for _ in range(1500):
+        out.append(gen_stmt(rng, "quick"))
+    return out
